@@ -52,6 +52,10 @@ FIRST = {
     "C19-4": "the check CRASHED (exit 2: it called a private helper whose signature the change altered); implementation exceptions are now broken correspondence; plus: the processed entry is a symbolic link to the file",
     "C12-4": "missed by C12, C15 HUNG (28 min); per-case alarm and time-limited shrinking; alias sets referring to each other against the registration order",
     "C12-5": "missed; names the template language cannot spell offered as alias / ad-hoc names, every listed alias or ad-hoc tag must be usable in a template",
+    "C18-11": "missed; contexts that coincide with attributes of the processed files (their names, suffixes, directories)",
+    "C06-10": "reported as a broken correspondence with no-failing-input-found; corpus case LINKMOVE (a dangling relative link moved to where its target exists, the next destination leads through it) gives the concrete replay",
+    "C03-8": "reported as a broken correspondence with no-failing-input-found; the stop oracle now also demands the converse (an occupied, not vacated destination must not end in status 0)",
+    "C02-11": "missed by C02 (caught by C16): %Count keyed by the relative directory over several input directories - plans are stateless in the C02 harness",
     "C01-6": "missed; destinations longer than NAME_MAX that agree in their first 251 bytes",
     "C02-7": "missed (the harness trusted the tool's own verdict on name validity); independent validity oracle for generated names, names that other platforms refuse — seen by C06 (whose name universe has them), still not by C02",
     "C02-8": "missed by C02 (caught by C07): same idea as C07-5",
